@@ -12,6 +12,11 @@ import (
 func FieldKey(v ssa.Value) string {
 	for i := 0; i < 20; i++ {
 		switch x := v.(type) {
+		case *ssa.Parameter:
+			if e, ok := paramAsField[x]; ok {
+				return e.key
+			}
+			return ""
 		case *ssa.UnOp:
 			if x.Op == token.MUL {
 				v = x.X
@@ -38,6 +43,87 @@ func FieldKey(v ssa.Value) string {
 		return ""
 	}
 	return ""
+}
+
+// paramAsField: a channel parameter of an unexported function that, at every call site, is handed the very channel
+// stored in one field of the object passed as first argument (`go h.run(ioCh)` right after `h := T{ch: ioCh}`), where
+// that field is only ever written while its object is being built: inside the function the parameter IS that field of
+// its first parameter. Filled by ResolveParamFields.
+type paramField struct {
+	key   string
+	owner *ssa.Parameter
+}
+
+var paramAsField = map[*ssa.Parameter]paramField{}
+
+// ResolveParamFields fills paramAsField. Called once after loading.
+func ResolveParamFields(p *Prog) {
+	paramAsField = map[*ssa.Parameter]paramField{}
+	// fields written only at construction (every store goes to an object the storing function allocates itself)
+	frozen := map[string]bool{}
+	for _, f := range p.Funcs {
+		Instrs(f, func(ins ssa.Instruction) {
+			st, ok := ins.(*ssa.Store)
+			if !ok {
+				return
+			}
+			fa, isFA := st.Addr.(*ssa.FieldAddr)
+			if !isFA {
+				return
+			}
+			if _, isCh := fa.Type().(*types.Pointer).Elem().Underlying().(*types.Chan); !isCh {
+				return
+			}
+			k := FieldKey(fa)
+			if _, seen := frozen[k]; !seen {
+				frozen[k] = true
+			}
+			if _, isAlloc := Resolve(FieldOwner(fa)).(*ssa.Alloc); !isAlloc {
+				frozen[k] = false
+			}
+		})
+	}
+	for _, f := range p.Funcs {
+		if f.Parent() != nil || f.Object() == nil || f.Object().Exported() || len(f.Params) < 2 {
+			continue
+		}
+		for i := 1; i < len(f.Params); i++ {
+			if _, isCh := f.Params[i].Type().Underlying().(*types.Chan); !isCh {
+				continue
+			}
+			sites, complete := CallSites(p, f)
+			if !complete || len(sites) == 0 {
+				continue
+			}
+			key := ""
+			for _, s := range sites {
+				ci, isCI := s.Instr.(ssa.CallInstruction)
+				if !isCI || s.Outer != nil || len(ci.Common().Args) <= i || Callee(ci.Common()) != f {
+					key = "-"
+					break
+				}
+				obj, a := Resolve(ci.Common().Args[0]), Unwrap(ci.Common().Args[i])
+				k := ""
+				Instrs(s.Caller, func(ins ssa.Instruction) {
+					st, ok := ins.(*ssa.Store)
+					if !ok || Unwrap(st.Val) != a || !InstrDominates(st, s.Instr) {
+						return
+					}
+					if fa, isFA := st.Addr.(*ssa.FieldAddr); isFA && Resolve(FieldOwner(fa)) == obj {
+						k = FieldKey(fa)
+					}
+				})
+				if k == "" || !frozen[k] || (key != "" && key != k) {
+					key = "-"
+					break
+				}
+				key = k
+			}
+			if key != "" && key != "-" {
+				paramAsField[f.Params[i]] = paramField{key, f.Params[0]}
+			}
+		}
+	}
 }
 
 var thinMemo = map[*ssa.Function]ssa.Value{}
@@ -128,6 +214,11 @@ func thinBase(call *ssa.Call) ssa.Value {
 func FieldBase(v ssa.Value) string {
 	for i := 0; i < 20; i++ {
 		switch x := v.(type) {
+		case *ssa.Parameter:
+			if e, ok := paramAsField[x]; ok {
+				return e.owner.Name()
+			}
+			return ""
 		case *ssa.UnOp:
 			if x.Op == token.MUL {
 				v = x.X
@@ -464,6 +555,8 @@ type ChanOp struct {
 	Via   string // name of the helper through which the op happens ("" = direct)
 	// Blocking: for send/recv, whether the operation may block (bare op or select without default)
 	Blocking bool
+	// Alt: the operation is a case of a select that has a case on some other channel (e.g. a timer)
+	Alt bool
 }
 
 // chanParamOps summarises, for a function whose parameter i has channel type,
@@ -499,7 +592,7 @@ func chanParamOps(f *ssa.Function) map[int][]ChanOp {
 					if st.Dir == types.SendOnly {
 						k = "send"
 					}
-					out[i] = append(out[i], ChanOp{Kind: k, Blocking: x.Blocking})
+					out[i] = append(out[i], ChanOp{Kind: k, Blocking: x.Blocking, Alt: len(x.States) > 1})
 				}
 			}
 		case *ssa.UnOp:
@@ -532,8 +625,10 @@ func ChanOps(p *Prog) []ChanOp {
 			summ[f] = s
 		}
 	}
+	alt := false
 	mk := func(kind string, f *ssa.Function, ins ssa.Instruction, ch ssa.Value, via string, blocking bool) {
-		out = append(out, ChanOp{Kind: kind, Fn: f, Instr: ins, Chan: ch, Field: FieldKey(ch), Base: FieldBase(ch), Via: via, Blocking: blocking})
+		out = append(out, ChanOp{Kind: kind, Fn: f, Instr: ins, Chan: ch, Field: FieldKey(ch), Base: FieldBase(ch), Via: via, Blocking: blocking, Alt: alt})
+		alt = false
 	}
 	for _, f := range p.Funcs {
 		Instrs(f, func(ins ssa.Instruction) {
@@ -546,6 +641,7 @@ func ChanOps(p *Prog) []ChanOp {
 					if st.Dir == types.SendOnly {
 						k = "send"
 					}
+					alt = len(x.States) > 1
 					mk(k, f, ins, st.Chan, "", x.Blocking)
 				}
 			case *ssa.UnOp:
@@ -563,6 +659,7 @@ func ChanOps(p *Prog) []ChanOp {
 						for i, ops := range s {
 							if i < len(c.Args) {
 								for _, o := range ops {
+									alt = o.Alt
 									mk(o.Kind, f, ins, c.Args[i], FuncName(g), o.Blocking)
 								}
 							}
